@@ -8,7 +8,7 @@ IMPL = {'cart::MBC1CartState': 'MBC1', 'cart::MBC3CartState': 'MBC3', 'cart::Nul
 # window -> (field, mask of value bits that are stored, kind)
 PROTOCOL = {
     'MBC1': [(0x0000, 0x1fff, 'ram_enabled', None), (0x2000, 0x3fff, 'rom_bank', 0x1f),
-             (0x4000, 0x5fff, 'ram_bank', 0x03), (0x6000, 0x7fff, 'select_ram', None)],
+             (0x4000, 0x5fff, 'ram_bank', 0x03), (0x6000, 0x7fff, 'select_ram', 0x01)],
     'MBC3': [(0x0000, 0x1fff, 'ram_enabled', None), (0x2000, 0x3fff, 'rom_bank', 0x7f),
              (0x4000, 0x5fff, 'ram_bank', 0x03), (0x6000, 0x7fff, None, None)],
     'ROM-only': [(0x0000, 0x7fff, None, None)],
@@ -86,6 +86,15 @@ def run(ctx, chk):
                         bad = 'a write to 0x%04x-0x%04x stores to %s' % (wlo, whi, fld)
                         continue
                     stored_any = True
+                    if mask_ is not None and T.is_int(e[3]):
+                        # value level first: the stored register is (value & mask) - as a number, or as "non-zero" for a
+                        # one-bit (bool) register - for every value on this path
+                        from ..affine import equal_mod as _eqm
+                        sb = e[3][1]
+                        masked = O(8, 'and', val, C(8, mask_))
+                        want_t = O(1, 'ne', masked, C(8, 0)) if sb == 1 else (O(sb, 'zext', masked) if sb > 8 else masked)
+                        if _eqm(e[3], want_t, r.state.env, sb):
+                            continue
                     if mask_ is not None:
                         prov = bit_provenance(e[3], r.state.env)
                         for i in range(len(prov)):
